@@ -1,9 +1,9 @@
-CONSTANTS Alphabet <- AGen
- MaxLen = 4
+CONSTANTS Families = {"gen", "incl"}
+ Family <- QuickFamily
  MaxSects = 2
  MaxDepth = 2
  Fixed = {"GlobCopyUninit", "GlobCopyReplaces", "CoreNotHidden"}
 INIT Init
 NEXT Next
-INVARIANTS InvAgrees InvDevsNamed InvLaterPassesAlike InvTable InvNoDevWhenFixed NoCrash
+INVARIANTS InvAll NoCrash
 CHECK_DEADLOCK FALSE
